@@ -80,6 +80,28 @@ func Leaves() []NC {
 		nt := nt
 		out = append(out, NC{"Any{" + nt.Name + "}", func() schema.Constraint { return schema.AnyExpression{OfType: nt.T} }})
 	}
+	// unusual values and types the schema package accepts
+	out = append(out,
+		NC{"LiteralValue{null}", func() schema.Constraint { return schema.LiteralValue{Value: cty.NullVal(cty.String)} }},
+		NC{"LiteralValue{unknown}", func() schema.Constraint { return schema.LiteralValue{Value: cty.UnknownVal(cty.String)} }},
+		NC{"LiteralValue{dynamic}", func() schema.Constraint { return schema.LiteralValue{Value: cty.DynamicVal} }},
+		NC{"LiteralValue{[]}", func() schema.Constraint { return schema.LiteralValue{Value: cty.ListValEmpty(cty.String)} }},
+		NC{"LiteralValue{{}}", func() schema.Constraint { return schema.LiteralValue{Value: cty.EmptyObjectVal} }},
+		NC{"LiteralValue{emptytuple}", func() schema.Constraint { return schema.LiteralValue{Value: cty.EmptyTupleVal} }},
+		NC{"LiteralValue{set_number}", func() schema.Constraint {
+			return schema.LiteralValue{Value: cty.SetVal([]cty.Value{cty.NumberIntVal(1), cty.NumberIntVal(2)})}
+		}},
+		NC{"LiteralValue{nested}", func() schema.Constraint {
+			return schema.LiteralValue{Value: cty.ObjectVal(map[string]cty.Value{"foo": cty.ListVal([]cty.Value{cty.StringVal("a")}), "bar": cty.NullVal(cty.Bool)})}
+		}},
+		NC{"LiteralType{emptyobject}", func() schema.Constraint { return schema.LiteralType{Type: cty.EmptyObject} }},
+		NC{"LiteralType{emptytuple}", func() schema.Constraint { return schema.LiteralType{Type: cty.EmptyTuple} }},
+		NC{"LiteralType{set_object}", func() schema.Constraint { return schema.LiteralType{Type: cty.Set(objType)} }},
+		NC{"Any{emptyobject}", func() schema.Constraint { return schema.AnyExpression{OfType: cty.EmptyObject} }},
+		NC{"Any{set_object}", func() schema.Constraint { return schema.AnyExpression{OfType: cty.Set(objType)} }},
+		NC{"Any{map_dynamic}", func() schema.Constraint { return schema.AnyExpression{OfType: cty.Map(cty.DynamicPseudoType)} }},
+		NC{"Reference{OfType string,OfScopeId sa}", func() schema.Constraint { return schema.Reference{OfType: cty.String, OfScopeId: lang.ScopeId("sa")} }},
+	)
 	for _, nt := range litTypes[4:9] {
 		nt := nt
 		out = append(out, NC{"Any{" + nt.Name + ",skip}", func() schema.Constraint {
@@ -151,6 +173,25 @@ func degenerates() []NC {
 		{"Tuple{[]}", func() schema.Constraint { return schema.Tuple{} }},
 		{"Object{}", func() schema.Constraint { return schema.Object{} }},
 		{"OneOf{}", func() schema.Constraint { return schema.OneOf{} }},
+		{"List{Any{string},min1,max2}", func() schema.Constraint {
+			return schema.List{Elem: schema.AnyExpression{OfType: cty.String}, MinItems: 1, MaxItems: 2}
+		}},
+		{"Set{LiteralType{string},min2}", func() schema.Constraint { return schema.Set{Elem: schema.LiteralType{Type: cty.String}, MinItems: 2} }},
+		{"Map{LiteralType{string},min1,max1}", func() schema.Constraint {
+			return schema.Map{Elem: schema.LiteralType{Type: cty.String}, MinItems: 1, MaxItems: 1}
+		}},
+		{"OneOf{LiteralValue{\"a\"},LiteralValue{\"b\"},LiteralValue{1},Keyword{kwd}}", func() schema.Constraint {
+			return schema.OneOf{schema.LiteralValue{Value: cty.StringVal("a")}, schema.LiteralValue{Value: cty.StringVal("b")}, schema.LiteralValue{Value: cty.NumberIntVal(1)}, schema.Keyword{Keyword: "kwd"}}
+		}},
+		{"Object{\u00e9t\u00e9:LiteralType{string},\u00e9cole:Any{string},foo:LiteralType{bool}}", func() schema.Constraint {
+			return schema.Object{Attributes: schema.ObjectAttributes{
+				"\u00e9t\u00e9":  {Constraint: schema.LiteralType{Type: cty.String}, IsOptional: true},
+				"\u00e9cole": {Constraint: schema.AnyExpression{OfType: cty.String}, IsOptional: true},
+				"foo":   {Constraint: schema.LiteralType{Type: cty.Bool}, IsOptional: true}}}
+		}},
+		{"OneOf{OneOf{Any{string}},List{OneOf{LiteralType{bool},Reference{OfType string}}}}", func() schema.Constraint {
+			return schema.OneOf{schema.OneOf{schema.AnyExpression{OfType: cty.String}}, schema.List{Elem: schema.OneOf{schema.LiteralType{Type: cty.Bool}, schema.Reference{OfType: cty.String}}}}
+		}},
 	}
 }
 
